@@ -451,7 +451,38 @@ def parse_timeout(ctx_text, wasm_text):
         anchored_skip = False
     else:
         raise TranslateError("verify_anchored_patterns: how the anchor is made relative to the block's base is not understood")
-    return dict(anchored_skip=anchored_skip, default=default, sets_timeout=sets_timeout, forces=forces, maps=maps, err_passthrough=err_passthrough, drains=drains)
+    # search_for_patterns: the pruning steps (everything that disables a pattern before the search) and their guards
+    sp_all = re.sub(r"\s+", "", strip_comments(fn_body(ctx_text, "search_for_patterns")))
+    fs_loop = "letfilesize=self.get_filesize();for(pattern_id,bounds)inself.compiled_rules.filesize_bounds(){if!bounds.contains(filesize){self.tracker.disabled_patterns.insert(*pattern_id);}}"
+    if "if!block_scanning_mode{" + fs_loop + "}" in sp_all:
+        fs_guard = True
+    elif fs_loop in sp_all:
+        fs_guard = False
+    else:
+        raise TranslateError("search_for_patterns: the filesize-bounds pruning step is not understood")
+    hdr_plain = "for(pattern_id,constraints)inself.compiled_rules.header_constraints(){if!constraints.is_satisfied(data){self.tracker.disabled_patterns.insert(*pattern_id);}}"
+    hdr_cover = "for(pattern_id,constraints)inself.compiled_rules.header_constraints(){if(!block_scanning_mode||constraints.is_decidable(data))&&!constraints.is_satisfied(data){self.tracker.disabled_patterns.insert(*pattern_id);}}"
+    if "ifbase==0{" + hdr_plain + "}" in sp_all:
+        hdr_base0, hdr_covering = True, False
+    elif "ifbase==0{" + hdr_cover + "}" in sp_all:
+        hdr_base0, hdr_covering = True, True
+    elif hdr_plain in sp_all:
+        hdr_base0, hdr_covering = False, False
+    elif hdr_cover in sp_all:
+        hdr_base0, hdr_covering = False, True
+    else:
+        raise TranslateError("search_for_patterns: the header-constraints pruning step is not understood")
+    if sp_all.count("disabled_patterns.insert(") != 2:
+        raise TranslateError("search_for_patterns: a pruning step other than filesize bounds / header constraints disables patterns")
+    rules_text = src("lib/src/compiler/rules.rs")
+    sat = re.sub(r"\s+", "", strip_comments(fn_body(rules_text, "is_satisfied", "HeaderConstraint::is_satisfied")))
+    if sat != "matchself{Self::Unconstrained=>true,Self::Unsatisfiable=>false,Self::Constrained(bytes)=>data.starts_with(bytes),}":
+        raise TranslateError("HeaderConstraint::is_satisfied changed: " + sat[:200])
+    if hdr_covering:
+        dec = re.sub(r"\s+", "", strip_comments(fn_body(rules_text, "is_decidable", "HeaderConstraint::is_decidable")))
+        if dec != "matchself{Self::Constrained(bytes)=>data.len()>=bytes.len(),_=>true,}":
+            raise TranslateError("HeaderConstraint::is_decidable changed: " + dec[:200])
+    return dict(fs_guard=fs_guard, hdr_base0=hdr_base0, hdr_covering=hdr_covering, anchored_skip=anchored_skip, default=default, sets_timeout=sets_timeout, forces=forces, maps=maps, err_passthrough=err_passthrough, drains=drains)
 
 
 def fn_bodies(code):
@@ -754,6 +785,13 @@ Definition ml_search_arm_moves_base : bool := {str(ml_bs_base).lower()}.
 (* blocks::Scanner::scan stores a snippet for the listed matches whose base is the block's base
    (and, since the shorter-block fix, that end inside the block) *)
 Definition snippet_filter_checks_end : bool := {str(snippet_filter == "base_and_end").lower()}.
+
+(* search_for_patterns, the pruning steps and their guards: filesize bounds only when scanning contiguous data;
+   header constraints (`data.starts_with(header)`) only for a block whose base is 0 and, in block mode, only
+   when the block is long enough to contain the header *)
+Definition filesize_pruning_only_contiguous : bool := {str(tmo['fs_guard']).lower()}.
+Definition header_pruning_only_at_base_zero : bool := {str(tmo['hdr_base0']).lower()}.
+Definition header_pruning_requires_covering_block : bool := {str(tmo['hdr_covering']).lower()}.
 
 (* verify_anchored_patterns: `offset.overflowing_sub(base)`, the block is skipped when its base is past the anchor *)
 Definition anchored_skips_block_past_offset : bool := {str(tmo['anchored_skip']).lower()}.""")
